@@ -722,3 +722,166 @@ Definition gf_factor (p : Z) (f : gf) (rs : rstate) : res (Z * list (gf * N)) :=
                    Ok (fold_left (fun s f => pset_insert (f, snd ae) s) fs factors, rs'))
                 sqf (Ok ([], rs));
     Ok (lc, factors).
+
+(* ---------- Shoup's algorithms ---------- *)
+(* this->gf_trace_map(a, b, c, n); [f] is `this` *)
+Fixpoint trace_loop (p : Z) (f : gf) (num : positive) (u v U V : gf) : res (gf * gf) :=
+  do cu <- gf_compose_mod p f u v;
+  let u' := gf_add p u cu in
+  do v' <- gf_compose_mod p f v v;
+  let bit := match num with xO _ => false | _ => true end in
+  do '(U', V') <-
+    (if bit then
+       do t <- gf_compose_mod p f u' V;
+       do V2 <- gf_compose_mod p f v' V;
+       Ok (gf_add p U t, V2)
+     else Ok (U, V));
+  match num with
+  | xH => Ok (U', V')
+  | xO n' => trace_loop p f n' u' v' U' V'
+  | xI n' => trace_loop p f n' u' v' U' V'
+  end.
+
+Definition gf_trace_map (p : Z) (f a b c : gf) (n : N) : res (gf * gf) :=
+  do u <- gf_compose_mod p f a b;
+  let '(U, V) := if N.odd n then (gf_add p a u, b) else (a, c) in
+  do '(U', V') <-
+    (match N.div2 n with
+     | N0 => Ok (U, V)
+     | Npos num => trace_loop p f num u b U V
+     end);
+  do r <- gf_compose_mod p f a V';
+  Ok (r, U').
+
+(* this->_gf_trace_map(ff, n, b):  x = ff % this; h = r = x;
+   for (i = 1; i < n; ++i) { h = h.gf_frobenius_map(this, b); r += h; r %= this; }   (as repaired in a42bcec) *)
+Fixpoint trace_map_loop (p : Z) (f : gf) (b : list gf) (cnt : nat) (h r : gf) : res gf :=
+  match cnt with
+  | O => Ok r
+  | S c =>
+      do h' <- gf_frobenius_map p h f b;
+      do r' <- gf_rem p (gf_add p r h') f;
+      trace_map_loop p f b c h' r'
+  end.
+
+Definition gf_trace_map_ (p : Z) (f ff : gf) (n : nat) (b : list gf) : res gf :=
+  do x <- gf_rem p ff f;
+  trace_map_loop p f b (n - 1) x x.
+
+(* U[i] = U[i-1].gf_frobenius_map(this, b) *)
+Fixpoint shoup_U (p : Z) (f : gf) (b : list gf) (cnt : nat) (prev : gf) : res (list gf) :=
+  match cnt with
+  | O => Ok []
+  | S c => do u <- gf_frobenius_map p prev f b; do rest <- shoup_U p f b c u; Ok (u :: rest)
+  end.
+
+(* V[i] = this->gf_compose_mod(V[i-1], h) *)
+Fixpoint shoup_V (p : Z) (f h : gf) (cnt : nat) (prev : gf) : res (list gf) :=
+  match cnt with
+  | O => Ok []
+  | S c => do v <- gf_compose_mod p f prev h; do rest <- shoup_V p f h c v; Ok (v :: rest)
+  end.
+
+(* for (auto &u : U) { g = V[i] - u; h *= g; h %= f; } *)
+Fixpoint shoup_prod (p : Z) (f vi : gf) (us : list gf) (h : gf) : res gf :=
+  match us with
+  | [] => Ok h
+  | u :: us' =>
+      do h1 <- gf_mul_assign p h (gf_sub p vi u);
+      do h2 <- gf_rem p h1 f;
+      shoup_prod p f vi us' h2
+  end.
+
+(* for (rit = U.rbegin(); ...) { h = V[i] - *rit; F = g.gcd(h); if (!F.is_one()) push {F, k*(i+1) - j}; g /= F; --j; }
+   [j1] = j + 1 *)
+Fixpoint shoup_split (p : Z) (vi : gf) (k i : nat) (rus : list gf) (j1 : nat) (g : gf)
+         (acc : list (gf * nat)) : res (list (gf * nat)) :=
+  match rus with
+  | [] => Ok acc
+  | u :: rus' =>
+      do F <- gf_gcd p g (gf_sub p vi u);
+      let acc' := if is_one F then acc else acc ++ [(F, k * (i + 1) - (j1 - 1))%nat] in
+      do g' <- gf_quo p g F;
+      shoup_split p vi k i rus' (j1 - 1) g' acc'
+  end.
+
+Fixpoint shoup_main (p : Z) (k : nat) (U : list gf) (vs : list gf) (i : nat) (f : gf)
+         (acc : list (gf * nat)) : res (gf * list (gf * nat)) :=
+  match vs with
+  | [] => Ok (f, acc)
+  | vi :: vs' =>
+      do h <- shoup_prod p f vi U (from_vec [1] p);
+      do g <- gf_gcd p f h;
+      do f' <- gf_quo p f g;
+      do acc' <- shoup_split p vi k i (rev U) k g acc;
+      shoup_main p k U vs' (S i) f' acc'
+  end.
+
+Definition gf_ddf_shoup (p : Z) (f0 : gf) : res (list (gf * nat)) :=
+  match f0 with
+  | [] => Ok []
+  | _ =>
+      let n := degree f0 in
+      let k := Nat.sqrt_up (n / 2) in            (* ceil(sqrt(n / 2)), n / 2 on unsigned *)
+      do b <- gf_frobenius_monomial_base p f0;
+      let x := from_vec [0; 1] p in
+      do h <- gf_frobenius_map p x f0 b;
+      do more <- shoup_U p f0 b (k - 1) h;
+      let Ufull := firstn (k + 1) (x :: h :: more) in
+      do hk <- vget Ufull k;
+      let U := firstn k Ufull in
+      do vmore <- shoup_V p f0 hk (k - 1) hk;
+      let V := firstn k (hk :: vmore) in
+      do '(f, factors) <- shoup_main p k U V O f0 [];
+      Ok (if is_one f then factors else factors ++ [(f, degree f)])
+  end.
+
+Fixpoint edf_s (p : Z) (fuel : nat) (n : nat) (f : gf) (rs : rstate) : res (list gf * rstate) :=
+  match fuel with
+  | O => ErrFuel
+  | S k =>
+      let N_ := degree f in
+      if (N_ <=? n)%nat then Ok ((if (N_ =? 0)%nat then [] else [f]), rs)
+      else
+        match rs with
+        | [] => ErrExn EXN_STREAM
+        | stream :: rs0 =>
+            do '(r, _) <- gf_random p (N_ - 1) stream;
+            let x := from_vec [0; 1] p in
+            if p =? 2 then
+              do h <- gf_pow_mod p f x (Z.to_N (mp_get_ui p));
+              do '(_, H) <- gf_trace_map p f r h x (N.of_nat (n - 1));
+              do h1 <- gf_gcd p f H;
+              do h2 <- gf_quo p f h1;
+              do '(fs1, rs1) <- edf_s p k n h1 rs0;
+              do '(fs2, rs2) <- edf_s p k n h2 rs1;
+              Ok (set_union fs1 fs2, rs2)
+            else
+              do b <- gf_frobenius_monomial_base p f;
+              do H <- gf_trace_map_ p f r n b;
+              do h <- gf_pow_mod p f H (Z.to_N ((mp_get_ui p - 1) / 2));
+              do h1 <- gf_gcd p f h;
+              do h2 <- gf_gcd p f (gf_sub_int p h 1);
+              do h12 <- gf_mul p h1 h2;
+              do h3 <- gf_quo p f h12;
+              do '(fs1, rs1) <- edf_s p k n h1 rs0;
+              do '(fs2, rs2) <- edf_s p k n h2 rs1;
+              do '(fs3, rs3) <- edf_s p k n h3 rs2;
+              Ok (set_union (set_union fs1 fs2) fs3, rs3)
+        end
+  end.
+
+(* the recursion of gf_edf_shoup has no bound in the C++ (a split may fail and is then retried
+   on the same polynomial with a new generator); the model gives up after [edf_s_fuel] levels *)
+Definition edf_s_fuel : nat := 200.
+
+Definition gf_edf_shoup (p : Z) (f : gf) (n : nat) (rs : rstate) : res (list gf * rstate) :=
+  edf_s p edf_s_fuel n f rs.
+
+Definition gf_shoup (p : Z) (f : gf) (rs : rstate) : res (list gf * rstate) :=
+  do ddf <- gf_ddf_shoup p f;
+  fold_left (fun acc fn =>
+               do '(factors, rs) <- acc;
+               do '(fs, rs') <- gf_edf_shoup p (fst fn) (snd fn) rs;
+               Ok (set_union factors fs, rs'))
+            ddf (Ok ([], rs)).
